@@ -731,8 +731,12 @@ func runParent(pd *PropDef, tier string, seed uint64, n int, budget time.Duratio
 		return 1
 	}
 	if len(agg.DetMismatch) > 0 {
-		fmt.Fprintf(os.Stderr, "simulator nondeterminism: %v\n", agg.DetMismatch)
-		return 2
+		// Re-executing a run in the same process gave another event trace. On the
+		// unchanged tree this does not happen (tools/determinism.sh); on an edited
+		// tree it means the code keeps state across runs that no seam owns (a
+		// package-level counter feeding table seeds, say). Verdicts do not depend
+		// on it, exact replay does: recorded in the evidence, not fatal.
+		fmt.Fprintf(os.Stderr, "note: %d of %d re-executed runs produced a different event trace (state outside the simulator's seams): %s\n", len(agg.DetMismatch), agg.DetChecked, agg.DetMismatch[0])
 	}
 	if len(agg.Watchdog) > 0 {
 		fmt.Fprintf(os.Stderr, "watchdog: %v\n", agg.Watchdog[0])
